@@ -23,9 +23,4 @@ theorem reset_eq (s : ChandelierExit F) (h : WF s) :
     (Minimum.reset_eq _ h.min) (Maximum.reset_eq _ h.max), h.pmin, h.pmax]
   rfl
 
-theorem reset_wf (s : ChandelierExit F) (h : WF s) :
-    ∃ r, s.reset = some r ∧ WF r ∧ r.period_fn = s.period_fn ∧ r.multiplier = s.multiplier := by
-  have h8 : s.atr.period_fn * 8 ≤ isizeMax := h.pmin ▸ h.min.small
-  exact ⟨_, reset_eq s h, fresh_wf _ _ h.atr.ema.pos h8, rfl, rfl⟩
-
 end TaRs.Gen.ChandelierExit
